@@ -124,6 +124,13 @@ def _build(d, maxlen):
             args[0] = bool(d.pick(2))
         if fn == 'AMP':
             mode = 'formula'
+            if d.chance(1, 8):
+                # a LONG chain (tiled from the drawn operands): a&b&c&...
+                # stays a chain of two-operand joins whatever its length
+                n = d.choice([17, 64, 253, 254, 255, 256, 300])
+                args = [args[i % len(args)] if not isinstance(
+                    args[i % len(args)], str) else args[i % len(args)][:3]
+                    for i in range(n)]
     else:
         fn = 'ID:' + d.choice(['left-right', 'mid-left', 'len-concat',
                                'replace', 'find-min'])
@@ -165,6 +172,15 @@ def enumerate_cases(tier, shard=0, nshards=1):
                        'mode': 'call'}
             for t in ('a', 'A', ' a', ''):
                 yield {'fn': 'FIND', 'args': [t, s, n], 'mode': 'call'}
+    # long chains of & (operands as literals and in cells)
+    for n in (2, 3, 17, 64, 253, 254, 255, 256, 300):
+        i += 1
+        if i % nshards != shard:
+            continue
+        pat = ['ab', 7, 'C', 2.5, '', 'x y', True]
+        for mode in ('formula', 'cells'):
+            yield {'fn': 'AMP', 'mode': mode,
+                   'args': [pat[j % len(pat)] for j in range(n)]}
     # self-overlapping search texts: every text of length <= 6 over {a, b}
     for n in range(1, 7):
         for tup in itertools.product('ab', repeat=n):
@@ -271,7 +287,8 @@ def judge(case):
         obs, stage = lib.eval_formula(f, cells, addr='Sheet1!Z1',
                                       presets=presets)
         res.nontrivial = len(args) > 2
-        res.labels = ('AMP',)
+        res.labels = ('AMP', 'chain>=255' if len(args) >= 255 else
+                      'chain>16' if len(args) > 16 else 'chain<=16')
         if not _same_cat(_tag(exp), obs, args):
             res.fail('value:&', _tag(exp), obs, f)
         return res
